@@ -20,7 +20,9 @@ def build_argv(opts, outs, layout, wd, inputs, report=None, json_path=None, core
     a = refpipe.argv_from(opts)
     d = wd
     demux = outs.get("demux")
-    if demux == "name":
+    if demux == "name" and outs.get("name_twice"):
+        main1, main2 = os.path.join(d, "out-{name}-{name}.1.fq"), os.path.join(d, "out-{name}-{name}.2.fq")
+    elif demux == "name":
         main1, main2 = os.path.join(d, "out-{name}.1.fq"), os.path.join(d, "out-{name}.2.fq")
     elif demux == "combinatorial":
         main1, main2 = os.path.join(d, "out-{name1}-{name2}.1.fq"), os.path.join(d, "out-{name1}-{name2}.2.fq")
@@ -62,10 +64,11 @@ def expected_files(opts, outs, layout, names1, names2):
 
     demux = outs.get("demux")
     if demux == "name":
+        tw = outs.get("name_twice")
         for n in names1:
-            add(("out", n), f"out-{n}")
+            add(("out", n), f"out-{n}-{n}" if tw else f"out-{n}")
         if not opts.get("discard_untrimmed") and not outs.get("untrimmed_output"):
-            add(("out", None), "out-unknown")
+            add(("out", None), "out-unknown-unknown" if tw else "out-unknown")
     elif demux == "combinatorial":
         for n1 in names1:
             for n2 in names2:
@@ -218,6 +221,11 @@ def corpus(adapter=AD1, tag="r"):
                         qual = q + ("I" * len(adapter) if has else "")
                         # some IDs contain ':Y:' themselves: only the comment field carries the CASAVA flag
                         ident = f"{tag}{k}:Y:z" if (k % 11 == 0) else f"{tag}{k}"
+                        if k % 13 == 5:
+                            # no comment field at all, ':Y:' right after the first character of the ID: not a CASAVA field
+                            recs.append((f"{tag}:Y:{k}", seq, qual))
+                            k += 1
+                            continue
                         # some headers carry a further field after the CASAVA field, flagged the other way round
                         extra = f" 7:{'N' if casava == 'Y' else 'Y'}:0" if k % 7 == 3 else ""
                         recs.append((f"{ident} 1:{casava}:0{extra}", seq, qual))
@@ -232,7 +240,11 @@ def mate_corpus(recs1, adapter=AD2):
     out = []
     for i, r in enumerate(recs1):
         b = base[(i * 7 + i // 2 + i // 12 + 11) % n]
-        out.append((r[0].replace(" 1:", " 2:"), b[1], b[2]))
+        name = r[0].replace(" 1:", " 2:")
+        if i % 3 == 1:
+            # the mates of some pairs carry different CASAVA flags (valid, if unusual): the pair decision must combine both
+            name = name.replace(" 2:Y:", " 2:n:").replace(" 2:N:", " 2:Y:").replace(" 2:n:", " 2:N:")
+        out.append((name, b[1], b[2]))
     return out
 
 
